@@ -128,6 +128,10 @@ PROPS["C01"] = {
     "theorems": [
         {"name": "C01_forms_agree", "status": "proved", "statement": "easy = easy_inplace = mac ++ detached for every key, nonce, message length (buffers of the documented size)"},
         {"name": "C01_roundtrip", "status": "proved", "statement": "open_easy / open_easy_inplace / open_detached_inplace of the box return the message, every key / nonce / length"},
+        {"name": "C01_box_is_secretbox", "status": "proved", "statement": "forall message, nonce, key pair: crypto_box_easy / easy_inplace = the secret-key form under HSalsa20(X25519(sk, pk), 0^16); open likewise"},
+        {"name": "C01_box_roundtrip", "status": "proved", "statement": "forall messages: if the two parties' precomputed keys agree (X25519 commutes -- assumption) each opens the other's box"},
+        {"name": "C01_seal_layout", "status": "proved", "statement": "a sealed box is epk || box under nonce BLAKE2b-24(epk || recipient pk) with epk = base * esk, for every ephemeral key the generator may draw"},
+        {"name": "C01_seal_roundtrip", "status": "proved", "statement": "the recipient opens what was sealed (the nonce derivation cannot fail; same DH assumption)"},
         {"name": "C01_example", "status": "proved", "statement": "non-vacuity by vm_compute"},
     ],
     "builds": ["stable"],
@@ -135,7 +139,7 @@ PROPS["C01"] = {
             "bytes = libsodium's, opens under both libraries both ways (search); secretbox forms through the extracted model with sentinel-filled caller buffers (correspondence). non-trivial: all; distinct by (op,args)",
     "modelled": _SYM_MODELLED + ["public-key boxes: X25519 is the external curve25519-dalek; box = secretbox(beforenm) is checked on the implementation against libsodium (search); not yet in the model"],
     "assumptions": ["libsodium as reference for byte compatibility", "DH commutes (Curve25519 group law) for box round trips"],
-    "partial": "secret-key forms proved over the model; public-key and sealed forms by search against libsodium",
+    "partial": "secret-key, public-key and sealed forms proved over the model (public-key round trips under the assumption that X25519 commutes); the object API forms by search against libsodium",
 }
 
 PROPS["C02"] = {
@@ -161,6 +165,8 @@ PROPS["C17"] = {
         {"name": "C17_open_easy", "status": "proved", "statement": "Err -> buffer unchanged or zero prefix ++ untouched tail"},
         {"name": "C17_open_easy_inplace", "status": "proved", "statement": "Err -> buffer unchanged"},
         {"name": "C17_stream_pull", "status": "proved", "statement": "not Ok -> (Err, state, buffer, tag variable) all unchanged"},
+        {"name": "C17_box_open_easy", "status": "proved", "statement": "forall inputs: a failed crypto_box_open_easy leaves the caller's buffer unchanged or zeroed where the ciphertext was copied"},
+        {"name": "C17_seal_open", "status": "proved", "statement": "the same for crypto_box_seal_open"},
         {"name": "C17_example", "status": "proved", "statement": "non-vacuity by vm_compute"},
     ],
     "builds": ["stable"],
@@ -191,6 +197,9 @@ PROPS["C04"] = {
         {"name": "C04_open_easy_inplace_total", "status": "proved", "statement": "open_easy_inplace never panics"},
         {"name": "C04_stream_pull_total", "status": "proved", "statement": "classic pull never panics"},
         {"name": "C04_stream_obj_pull_total", "status": "proved", "statement": "object pull never panics"},
+        {"name": "C04_box_open_total", "status": "proved", "statement": "forall bytes: crypto_box_open_easy never panics"},
+        {"name": "C04_box_open_inplace_total", "status": "proved", "statement": "forall bytes: crypto_box_open_easy_inplace never panics"},
+        {"name": "C04_seal_open_total", "status": "proved", "statement": "forall bytes and any output buffer: crypto_box_seal_open never panics"},
         {"name": "C04_example", "status": "proved", "statement": "non-vacuity by vm_compute"},
     ],
     "builds": ["stable"],
